@@ -430,7 +430,9 @@ def ob_logrelax(R, tmp):
 def ob_gyr(R, tmp):
     from PyMatterSim.static.shape import gyration_tensor
     with np.errstate(all="ignore"):
-        return [float(x) for x in gyration_tensor(R.frames[0].copy())]
+        vals = gyration_tensor(R.frames[0].copy())
+    # (numpy.linalg.eig may return the eigenvalues of the symmetric tensor as complex numbers with zero imaginary part)
+    return [complex(x) for x in vals]
 
 
 def ob_pr(R, tmp):
@@ -711,7 +713,7 @@ def cmp_hess(r0, r1, act, ctx, out):
             gap[:-1] = np.minimum(gap[:-1], dl)
             gap[1:] = np.minimum(gap[1:], dl)
         iso = gap > 1e-4 * scale
-        out.ties += int((~iso).sum())
+        out.ties += 1 if not np.all(iso) else 0
         out.checked += int(iso.sum())
         p0, p1 = a["PR"].values[iso], b["PR"].values[iso]
         if not np.all(np.abs(p1 - p0) <= 1e-5 * np.abs(p0) + 1e-7):
@@ -759,6 +761,9 @@ def cmp_gyr(r0, r1, act, ctx, out):
     names = ["radius_of_gyration", "asphericity", "acylindricity", "shape_anisotropy", "fractal_dimension"] if d == 3 else \
             ["radius_of_gyration", "acylindricity", "fractal_dimension"]
     power = {"radius_of_gyration": 1, "asphericity": 2, "acylindricity": 2, "shape_anisotropy": 0, "fractal_dimension": None}
+    if any(abs(complex(x).imag) > 1e-9 * (1.0 + abs(complex(x))) for x in list(r0) + list(r1)):
+        return out.fail("gyr:ComplexDescriptor", base=[str(x) for x in r0], transformed=[str(x) for x in r1])
+    r0, r1 = [complex(x).real for x in r0], [complex(x).real for x in r1]
     rg2 = r0[0] ** 2
     for nm, a, b in zip(names, r0, r1):
         pw = power[nm]
@@ -837,8 +842,8 @@ def replay_group(job):
             except Exception as e:  # comparison itself failed: report as machinery problem
                 res.append(("machinery", f"{name}: {type(e).__name__}: {e}", detail, key))
                 continue
-            for _ in range(out.ties):
-                res.append(("tie", None, None, key))
+            if out.ties:
+                res.append(("tie", out.ties, None, key))
             if out.bad:
                 clause, d2 = out.bad[0]
                 res.append(("violation", clause, dict(detail, **_jsonable(d2)), key))
@@ -870,7 +875,10 @@ def collect(chk, results, covered):
                 covered.add(key[1:])
                 chk.ok(key, sample=detail)
             elif verdict == "tie":
-                chk.tie()
+                chk.skipped_tie += clause
+                chk.evaluations += clause
+                tb = chk.extra.setdefault("ties_by_observable", {})
+                tb[key[0] + ":" + key[1]] = tb.get(key[0] + ":" + key[1], 0) + clause
             elif verdict == "machinery":
                 raise common.MachineryError(clause)
             else:
